@@ -2,8 +2,8 @@ import FiberModel.DriverUtil
 import FiberModel.C12.Known
 /-
 Driver for C12. Case fields after the id (see harness/cmd/c12/main.go):
-  rtc keys vals levels oldKeys oldVals | issued c2 seen2 c3 seen3
-  rtt keys vals levels oldKeys oldVals | issued st2 seen2 exp2 st3 seen3
+  rtc keys vals levels oldKeys oldVals [wi<positions>] | issued c2 seen2 c3 seen3
+  rtt keys vals levels oldKeys oldVals [wi<positions>] | issued st2 seen2 exp2 st3 seen3
   dec cookies | steps allocs
 -/
 open B DriverUtil C12
@@ -36,8 +36,29 @@ def perms : List α → List (List α)
 structure Script where
   calls : List (Bytes × Bytes × Nat)
   inputs : List (Bytes × Bytes)
-  /-- `WithInput()` is called after the first `wipos` `With` calls -/
-  wipos : Nat
+  /-- one `WithInput()` call per entry `p`: after the first `p` `With` calls (non-decreasing) -/
+  wipos : List Nat
+
+def fact : Nat → Nat
+  | 0 => 1
+  | n + 1 => (n + 1) * fact n
+
+/-- `wi<p1>.<p2>…` = positions of the `WithInput()` calls, `wi-` = never called; a line without the
+    field (older corpus / witness lines) means one call after all `With` calls -/
+def parseWi (w : Option String) (ncalls : Nat) : Except String (List Nat) :=
+  match w with
+  | none => pure [ncalls]
+  | some w =>
+    if !w.startsWith "wi" then throw "outside-domain: WithInput positions" else
+    let rest := (w.drop 2).toString
+    if rest == "-" then pure [] else
+    match (rest.splitOn ".").mapM (·.toNat?) with
+    | none => throw "outside-domain: WithInput positions"
+    | some ps =>
+      let rec sorted : Nat → List Nat → Bool
+        | _, [] => true
+        | lo, p :: r => lo ≤ p && p ≤ ncalls && sorted p r
+      if sorted 0 ps then pure ps else throw "outside-domain: WithInput positions not sorted / beyond the chain"
 
 def parseScript (ks vs ls oks ovs : String) (wi : Option String := none) : Except String Script := do
   let some ks := hexList ks | throw "outside-domain: keys"
@@ -49,22 +70,33 @@ def parseScript (ks vs ls oks ovs : String) (wi : Option String := none) : Excep
   let some inputs := zip2 oks ovs | throw "outside-domain: ragged input lists"
   if inputs.length > 4 then throw "outside-domain: too many old inputs"
   if (inputs.map (·.1)).eraseDups.length ≠ inputs.length then throw "outside-domain: duplicate old-input key"
-  let wipos ← match wi with
-    | none => pure calls.length
-    | some w => match (w.drop 2).toNat? with
-      | some p => if w.startsWith "wi" ∧ p ≤ calls.length then pure p else throw "outside-domain: WithInput position"
-      | none => throw "outside-domain: WithInput position"
+  let wipos ← parseWi wi calls.length
+  -- the model tries every combination of map orders (one per WithInput() call)
+  if (fact inputs.length) ^ wipos.length > 600 then throw "outside-domain: too many WithInput() calls for this many inputs"
   pure ⟨calls, inputs, wipos⟩
 
-/-- model: messages after the `With` chain, then `WithInput` in the map order the implementation
-    happened to use (recovered from the issued bytes; any permutation is legal) -/
+/-- every choice of one map order per `WithInput()` call -/
+def orderChoices (inputs : List (Bytes × Bytes)) : Nat → List (List (List (Bytes × Bytes)))
+  | 0 => [[]]
+  | k + 1 => (perms inputs).flatMap fun p => (orderChoices inputs k).map (p :: ·)
+
+/-- model: `C12.runOps` on the chain of builder calls of the case line (`C12.interleave`), each
+    `WithInput()` in the map order the implementation happened to use (recovered from the issued
+    bytes; any permutation is legal, independently per call) -/
 def modelMsgs (s : Script) (issued : Option Bytes) : List Msg :=
-  let withs (ms : List Msg) (cs : List (Bytes × Bytes × Nat)) := cs.foldl (fun ms c => withMsg ms c.1 c.2.1 c.2.2) ms
-  let fl := withs [] (s.calls.take s.wipos)
-  let cands := (perms s.inputs).map fun p => withs (withInput fl p) (s.calls.drop s.wipos)
+  let cands := (orderChoices s.inputs s.wipos.length).map fun orders => runOps (interleave s.calls s.wipos orders)
   match cands.find? (fun ms => issueOnWire ms = issued) with
   | some ms => ms
-  | none => cands.headD fl
+  | none => cands.headD []
+
+/-- distribution tags: how the script exercises the `With` / `WithInput` rules -/
+def scriptTags (s : Script) : List String :=
+  let keys := s.calls.map (·.1)
+  (if keys.eraseDups.length < keys.length then ["dupkey"] else []) ++
+  (if s.inputs ≠ [] ∧ s.wipos.length ≥ 2 then ["withinput-repeated"] else []) ++
+  (if s.inputs ≠ [] ∧ s.wipos = [] then ["input-not-attached"] else []) ++
+  (if s.inputs ≠ [] ∧ s.wipos.any (· < s.calls.length) then ["withinput-early"] else []) ++
+  (if s.wipos ≠ [] ∧ s.inputs.any (fun kv => keys.contains kv.1) then ["key-collides-with-input"] else [])
 
 def bit (b : Bool) : String := if b then "1" else "0"
 
@@ -82,10 +114,10 @@ def handleRtc (id : String) (s : Script) (issued c2 seen2 c3 seen3 : String) : E
   let modelObs := s!"{optHex wire};{optHex jar1};{renderSeen m2};{optHex jar2};{renderSeen m3}"
   let implObs := s!"{issued};{c2};{seen2};{c3};{seen3}"
   let flash := expectedFlash s.calls
-  let old := expectedOld s.inputs
+  let old := expectedOldN s.wipos.length s.inputs
   let spec := specConforming flash old { issued := iss, c2 := c2v, seen2 := seen2, c3 := c3v, seen3 := seen3 }
   let known := if Known.K1for spec false (flash ++ old) then some "K1" else none
-  let tags := ["rtc", if ms = [] then "nomsgs" else "msgs"] ++ (if ms ≠ [] then ["nt-rtc"] else [])
+  let tags := ["rtc", if ms = [] then "nomsgs" else "msgs"] ++ (if ms ≠ [] then ["nt-rtc"] else []) ++ scriptTags s
   pure { id := id, modelObs := modelObs, implObs := implObs, spec := spec, known := known, tags := tags }
 
 def handleRtt (id : String) (s : Script) (issued st2 seen2 exp2 st3 seen3 : String) : Except String Verdict := do
@@ -96,7 +128,7 @@ def handleRtt (id : String) (s : Script) (issued st2 seen2 exp2 st3 seen3 : Stri
   let wire := issueOnWire ms
   let implObs := s!"{issued};{st2};{seen2};{exp2};{st3};{seen3}"
   let flash := expectedFlash s.calls
-  let old := expectedOld s.inputs
+  let old := expectedOldN s.wipos.length s.inputs
   let spec := specTransparent flash old { issued := iss, st2 := st2n, seen2 := seen2, exp2 := exp2 == "1", st3 := st3n, seen3 := seen3 }
   let known := if Known.K1for spec true (flash ++ old) then some "K1" else none
   -- model of the exchange with a verbatim-copying client
@@ -119,7 +151,7 @@ def handleRtt (id : String) (s : Script) (issued st2 seen2 exp2 st3 seen3 : Stri
         let (m3, _, _) := serve pool2 (jar2.getD []) []
         (s!"{toHexField v};200;{renderSeen m2};{bit (sc2 == some none)};200;{renderSeen m3}",
          ["delivered", "nt-rtt-delivered"])
-  pure { id := id, modelObs := modelObs, implObs := implObs, spec := spec, known := known, tags := "rtt" :: tags }
+  pure { id := id, modelObs := modelObs, implObs := implObs, spec := spec, known := known, tags := "rtt" :: (tags ++ scriptTags s) }
 
 structure Step where
   status : Nat
